@@ -55,7 +55,10 @@ RULE = ("Hypothesis draws a simulation description (interior size 3-12 per "
         "values encoding (variable, iteration, level, restart, x, y, z) "
         "injectively, and the arrays returned by read_data / "
         "read_ET_variables / join_chunks must be np.array_equal to the "
-        "ground truth. Non-trivial = the level read has >= 2 chunks along "
+        "ground truth. Sub-check regridded: one-file layouts in which a "
+        "level changes its decomposition (1 -> many, many -> 1, any -> any) "
+        "from a drawn iteration on, read through get_content + "
+        "read_ET_variables. Non-trivial = the level read has >= 2 chunks along "
         ">= 1 axis and a non-cubic interior size.")
 # a run that exceeds this ends as "explored less" (never a violation)
 BUDGET_S = {"quick": 85, "thorough": 1050}
@@ -351,6 +354,33 @@ def test_regridded(case, note):
                                          restart=r), list(its), "", fail)
     finally:
         shutil.rmtree(d, ignore_errors=True)
+
+
+def test_late_level(case, note):
+    """The finest level appears only part-way through a restart (a level
+    added by regridding): the restart's iteration range is that of all its
+    levels, so coarse-level iterations from before the fine level existed
+    still come from that (latest) restart."""
+    spec = build_spec(case)
+    nlev = len(spec["levels"])
+    if nlev < 2:
+        note.cls("single-level")
+        return
+    sel = case["req"]["itsel"]
+    changed = False
+    for k, rs in enumerate(spec["restarts"]):
+        fine = rs["its"][nlev - 1]
+        if len(fine) > 1 and (k > 0 or len(spec["restarts"]) == 1
+                              or sel[0] % 2):
+            drop = 1 + sel[k % len(sel)] % (len(fine) - 1)
+            rs["its"][nlev - 1] = fine[drop:]
+            changed = True
+    if not changed:
+        note.cls("restarts-too-short")
+        return
+    note.cls("fine-level-appears-mid-restart")
+    rq = dict(case["req"], rl=case["req"]["rl"] % (nlev - 1))
+    run_read(dict(case, req=rq), note, spec=spec, tagprefix="late-level:")
 
 
 def test_ghost0(case, note):
@@ -694,6 +724,9 @@ def subchecks(tier):
         Sub("regridded", sim_case(["1", "2", "3", "4-8"], nlev_max=2,
                                   regrid=True), test_regridded,
             64 if q else 2000, shards=4 if q else 16),
+        Sub("late_level", sim_case(["1", "4-8"], nlev_max=3, nmax=8,
+                                   nlev_choices=[2, 2, 3]),
+            test_late_level, 64 if q else 2000, shards=4 if q else 16),
         Sub("unsupported", sim_case(["1"], unsupported=True, nlev_max=2),
             test_unsupported, 64 if q else 1200, generic=GENERIC_UNSUPPORTED,
             shards=8 if q else 16),
